@@ -359,6 +359,19 @@ class MTVRPEnv(RL4COEnvBase):
         _check_c1("demand_linehaul")
         _check_c1("demand_backhaul")
 
+        # Backhaul precedence (B): within a route, linehauls are served before backhauls
+        carrying_backhaul = torch.zeros(batch_size, dtype=torch.bool, device=td.device)
+        for ii in range(actions.size(1)):
+            node = actions[:, ii : ii + 1]
+            carrying_backhaul = carrying_backhaul & (node.squeeze(1) != 0)
+            is_linehaul = td["demand_linehaul"].gather(1, node).squeeze(1) > 0
+            assert not (
+                carrying_backhaul & is_linehaul
+            ).any(), "Linehaul served after a backhaul in the same route"
+            carrying_backhaul = carrying_backhaul | (
+                td["demand_backhaul"].gather(1, node).squeeze(1) > 0
+            )
+
     def load_data(self, fpath, batch_size=[], scale=False):
         """Dataset loading from file
         Normalize demand by capacity to be in [0, 1]
